@@ -566,7 +566,7 @@ impl SyncResponder {
             return Ok(length);
         }
 
-        let (commands, command_data, next_send) = self.get_commands(provider)?;
+        let (commands, command_data, next_send, resume) = self.get_commands(provider)?;
 
         let message = SyncResponseMessage::SyncResponse {
             session_id: self.session_id()?,
@@ -585,6 +585,12 @@ impl SyncResponder {
             .ok_or(SyncError::BufferTooSmall)?;
         data_target.copy_from_slice(&command_data);
 
+        if let Some(resume) = resume {
+            *self
+                .to_send
+                .get_mut(next_send)
+                .assume("send index in bounds")? = resume;
+        }
         self.message_index = self
             .message_index
             .checked_add(1)
@@ -617,7 +623,7 @@ impl SyncResponder {
             }
         };
         self.to_send = Self::find_needed_segments(&self.has, storage, buffers)?;
-        let (commands, command_data, next_send) = self.get_commands(provider)?;
+        let (commands, command_data, next_send, resume) = self.get_commands(provider)?;
         let mut length = 0;
         if !commands.is_empty() {
             let message = SyncType::Push {
@@ -640,6 +646,12 @@ impl SyncResponder {
                 .ok_or(SyncError::BufferTooSmall)?;
             data_target.copy_from_slice(&command_data);
 
+            if let Some(resume) = resume {
+                *self
+                    .to_send
+                    .get_mut(next_send)
+                    .assume("send index in bounds")? = resume;
+            }
             self.message_index = self
                 .message_index
                 .checked_add(1)
@@ -658,6 +670,7 @@ impl SyncResponder {
             Vec<CommandMeta, COMMAND_RESPONSE_MAX>,
             Vec<u8, MAX_SYNC_MESSAGE_SIZE>,
             usize,
+            Option<Location>,
         ),
         SyncError,
     > {
@@ -675,6 +688,7 @@ impl SyncResponder {
         let mut commands: Vec<CommandMeta, COMMAND_RESPONSE_MAX> = Vec::new();
         let mut command_data: Vec<u8, MAX_SYNC_MESSAGE_SIZE> = Vec::new();
         let mut index = self.next_send;
+        let mut resume = None;
         for i in self.next_send..self.to_send.len() {
             if commands.is_full() {
                 break;
@@ -729,22 +743,22 @@ impl SyncResponder {
 
             if sent < found.len() {
                 // The response filled up partway through this segment.
-                // Point this entry at the first unsent command so the next
-                // response resumes inside the segment; a command's location
-                // within a segment advances one max_cut per command.
+                // The caller points this entry at the first unsent command
+                // once the message is known to fit, so the next response
+                // resumes inside the segment; a command's location within a
+                // segment advances one max_cut per command.
                 let resume_max_cut = location
                     .max_cut
                     .checked_add(sent as u64)
                     .assume("max_cut + sent mustn't overflow")?;
-                *self.to_send.get_mut(i).assume("send index in bounds")? =
-                    Location::new(location.segment, resume_max_cut);
+                resume = Some(Location::new(location.segment, resume_max_cut));
                 index = i;
                 break;
             }
 
             index = i.checked_add(1).assume("index + 1 mustn't overflow")?;
         }
-        Ok((commands, command_data, index))
+        Ok((commands, command_data, index, resume))
     }
 
     fn session_id(&self) -> Result<u128, SyncError> {
